@@ -58,7 +58,15 @@ META = {'design_ref': 'DESIGN.md section 7 / C07',
                'clean start follows the rejoin table, a server-assigned client id is reused; negotiated settings = CONNACK else CONNECT else default (12 '
                "fields); PendingDisconnect, Halted and Disconnected are silent. NOT proved: 'the CONNECT was completely written' is expressed as "
                'connect_in_queue = false (the CONNECT operation has left queue, encoder and written-not-completed list; in the abstract model it could also '
-               'leave by failing last-chance outbound validation, which the real validator never does for a CONNECT); the byte-level wire order per connection '
-               'stays the monitors mon_c07 / mon_c07_connected on sampled histories',
+               'leave by failing last-chance outbound validation, which the real validator never does for a CONNECT). (e) CONNECT FIRST ON THE WIRE '
+               '(C07_run_connect_first_on_wire, C07_instance_connect_first_on_wire, C07_instance_stream_starts_with_connect; EngineProofs/WireRunConnect.v, '
+               'WireRunPubrel*.v; extra hypothesis of the abstract version: the last-chance validator accepts every CONNECT, true by definition for the '
+               'validator of the instance): for every history and every connection of it, the FIRST packet an encoder is constructed for is create_connect of the '
+               'state in which the connection opened, with no alias resolution, and no other packet an encoder is constructed for on that connection is a '
+               'CONNECT (once connected no CONNECT operation exists, and the PUBREL slot of an operation never holds a CONNECT: invariant '
+               'C07_run_pubrel_slot_never_connect, for every step of every state); combined with the stream theorem of C02 (C02_run_wire_connection): the byte '
+               'stream of every connection is complete packet encodings plus a prefix of one, starts with the encoding of that CONNECT (complete as soon as any later packet follows) and contains '
+               'no other CONNECT frame. Still monitors on sampled histories (mon_c07 / mon_c07_connected): that the IMPLEMENTATION emits the bytes the model '
+               'emits (lock-step tie), and nothing-but-the-CONNECT-before-the-CONNACK at byte level beyond what (a) + (e) give for the model',
  'technique': 'machine-checked proof in Coq over the engine model + lock-step correspondence of the extracted model with the implementation + extracted '
               'monitors on the implementation trace'}
